@@ -22,9 +22,9 @@ RULE = ("case = one line triple (lengths 0-8 over 6 plain lines + hostile marker
         "real BASE/THIS/OTHER branches (2a or git; plain or cherrypick history; THIS committed or uncommitted); every option set "
         "(reprocess x show_base for merge3, reprocess for weave/lca) is one evaluation; non-trivial = text merge needed (all three texts pairwise "
         "different); distinct = (triple, format, history shape, merger, options)")
-CASES = {"quick": 300, "thorough": 4000}
+CASES = {"quick": 300, "thorough": 8000}
 BUDGET_S = {"quick": 35, "thorough": 600}
-MIN_EVALS = {"quick": 400, "thorough": 6000}
+MIN_EVALS = {"quick": 400, "thorough": 10000}
 FLOORS = {"ref_conflict_iff_record": 300, "ref_bytes": 300, "helpers_exact": 60, "resolve_take_this": 40, "resolve_take_other": 40,
           "cant_reprocess_and_show_base": 30, "weave_record_iff_helpers": 60, "clean_no_helpers": 60}
 ASSUMPTIONS = [
